@@ -274,7 +274,9 @@ func newSys(c []byte, memMax int64) (*sys, error) {
 			TTLInterval:     time.Hour,
 		}
 	}
-	s.cas, err = store.VerifNewCAStoreManualDrain(cfg, tally.NoopScope, s.clk)
+	// the real constructor starts the drain / TTL workers, which are stopped
+	// again before it returns; that part runs outside the controlled scheduler
+	vrt.Uncontrolled(func() { s.cas, err = store.VerifNewCAStoreManualDrain(cfg, tally.NoopScope, s.clk) })
 	if err != nil {
 		return nil, err
 	}
